@@ -588,6 +588,31 @@ def check_C20(ctx):
                       "line": v["line"], "seed": ctx.seed, "errors": []})
     ctx.count("traces_validated", len(behs))
     ctx.samples.append({"family": "changestore", "steps": behs[0] if behs else []})
+    # 1b. pkg/cache (sharded LRU, expirable LRU): Cache.tla checked exhaustively; generated call sequences on both real caches
+    ok, out, rec = model_check(ctx, "Cache", "cache_mc.cfg", overrides={"MaxLen": "4"} if quick else None)
+    if not ok:
+        raise Infra("Cache.tla itself violates its invariants:\n" + out[-2000:])
+    cbehs = generate(ctx, "cache_gen.cfg", module="Cache", simulate="num=%d" % (300 if quick else 5000), workers=1, timeout=900)
+    cinp = os.path.join(d, "lru-beh.ndjson")
+    with open(cinp, "w") as f:
+        for b in cbehs:
+            f.write(json.dumps(b) + "\n")
+    lprocs = []
+    for i in range(NCPU):
+        lo = os.path.join(d, "lru-trace-%d.ndjson" % i)
+        lprocs.append((lo, subprocess.Popen([ctx.yvh, "lru", "-in", cinp, "-out", lo, "-shard", str(i), "-nshards", str(NCPU)], stdout=subprocess.PIPE, stderr=subprocess.PIPE, text=True)))
+    ltraces = []
+    for lo, p in lprocs:
+        so, se = p.communicate(timeout=3000)
+        if p.returncode != 0:
+            raise Infra("lru driver failed: " + se[-2000:])
+        if os.path.getsize(lo) > 0:
+            ltraces.append(lo)
+    for v in validate(ctx, ltraces, module="CacheTrace", cfg="cache_trace.cfg"):
+        viols.append({"property": "C20", "tag": v["tag"], "family": "lru", "behaviour": None, "run": v.get("run"), "line": v["line"], "seed": ctx.seed, "errors": []})
+    ctx.count("traces_validated", 2 * len(cbehs))
+    ctx.count("behaviours_executed", 2 * len(cbehs))
+    ctx.samples.append({"family": "lru", "behaviours": len(cbehs), "caches": ["sharded LRU size 16", "expirable LRU size 3 ttl 100ms"]})
     # 2. the snapshot cache: the server's rebuilt document with cache hits / misses / evictions interleaved with pushes
     fams = [dict(name="cache-mix", alphabet="OpsMix", clients="Seq3", threshold=2, interval=2, late='{"c3"}',
                  feat='{"idle", "build", "evict", "lateattach"}', weight=40, maxedits=3),
@@ -599,7 +624,8 @@ def check_C20(ctx):
     fresh, known = split_known(ctx, viols)
     return "model_checking", fresh, known, mc_cov(ctx), [
         "the MongoDB client that composes the caches cannot run here: the composition rules of mongo/client.go are modelled in ChangeStore.tla and "
-        "replayed against the real mongo.ChangeStore; pkg/cache LRU (with expiry) is not covered"]
+        "replayed against the real mongo.ChangeStore; pkg/cache (sharded LRU, expirable LRU) is covered as a look-aside contract (Cache.tla: a hit returns the last value added, "
+        "removed/purged/expired keys miss, the key added last hits), not as an exact LRU order"]
 
 
 C19_TAGS = {"Converged", "CloneEqRoot", "RefEquiv", "BuildEquiv", "BuildNeverFails", "SyncNeverFails", "LogReplayable", "EditNeverFails"}
